@@ -308,7 +308,7 @@ def _py_case(draw):
 
 def drivers(tier):
     th = tier == 'thorough'
-    m = 12 if th else 1
+    m = 36 if th else 3
     return [
         dict(kind='hyp', name='json', strategy=_json_case(), examples=5000 * m),
         dict(kind='hyp', name='tsv', strategy=_tsv_case(), examples=4000 * m),
